@@ -13,7 +13,8 @@ from enc import K, N, jsonable
 from iterprog import exc_name
 
 THEOREMS = ["C02_apply_skip_sound", "C02_append_unary_sound", "C02_marker_denotes_slots", "C02_chain_rule_sound",
-            "C02_join_rule_sound", "C02_sql_program_denotes_its_specification"]
+            "C02_join_rule_sound", "C02_join_rule_sound_with", "C02_join_with_identity",
+            "C02_sql_program_denotes_its_specification"]
 HDR = "From DR Require Import Model.CheckMulti.\nOpen Scope Z_scope.\n"
 
 
